@@ -94,6 +94,18 @@ func (vp *VoteProcessor[Source, Data]) groupVotes(aggregateVotes []types.Aggrega
 					continue
 				}
 
+				// one validator, one voice: a repeated entry must not add its power again
+				repeated := false
+				for _, dwv := range groupedVotes[source] {
+					if dwv.Data == data && dwv.Voter.Equals(voter) {
+						repeated = true
+						break
+					}
+				}
+				if repeated {
+					continue
+				}
+
 				groupedVotes[source] = append(groupedVotes[source], DataWithVoter[Data]{
 					Data:  data,
 					Voter: voter,
